@@ -83,10 +83,15 @@ class Ctx:
         self.classes = set()
         self.nt = False
 
-    def add(self, obj, model):
+    def add(self, obj, model, may_alias=False):
         # alias tracking: same object as an existing one -> share model list object
         for i, o in enumerate(self.vals):
             if o is obj and not isinstance(obj, str):
+                if not may_alias and isinstance(obj, self.C.CHText):
+                    # only += (in place by definition) and fixed_len of the exact length (ASSUMPTIONS) may hand back an
+                    # operand; every other operation gives a new text, as on str: extending the result leaves the operand
+                    self.fail("operation_returns_its_operand_instead_of_a_new_text",
+                              f"result is value {i} itself; a later += on either changes both")
                 self.vals.append(obj)
                 self.models.append(self.models[i])
                 self.classes.add("alias_returned")
@@ -182,6 +187,21 @@ def apply_op(ctx, op):
     if kind == "str":
         ctx.add(op[1], model_of_str(op[1]))
         return f"str {op[1]!r}"
+    if kind == "bigtext":
+        # a text of many chunks (neighbours differ in colour, nothing merges): 65-130 of them
+        nch = 65 + op[1] % 66
+        f1, f2 = op[2] % len(FMTS), (op[2] + 1 + op[3] % (len(FMTS) - 1)) % len(FMTS)
+        parts, model = [], []
+        for k in range(nch):
+            fi = f1 if k % 2 == 0 else f2
+            t = "ab"[k % 2] * (1 + k % 2)
+            parts.append(ctx.fmts[fi](t))
+            model += [(c, ctx.states[fi]) for c in t]
+        if ctx.states[f1] == ctx.states[f2]:
+            return None
+        ctx.add(C.CHText(*parts), model)
+        ctx.classes.add("text_of_more_than_64_chunks")
+        return f"bigtext {nch} chunks"
     if kind == "chunk":
         fi = op[1] % len(FMTS)
         ctx.add(ctx.fmts[fi](op[2]), [(c, ctx.states[fi]) for c in op[2]])
@@ -244,7 +264,7 @@ def apply_op(ctx, op):
             # in-place: every alias sees it
             m = models[a]
             m.extend(addm)
-            ctx.add(target, m)   # alias entry
+            ctx.add(target, m, may_alias=True)   # alias entry
         else:
             ctx.add(target, models[a] + addm)
         return desc
@@ -295,7 +315,7 @@ def apply_op(ctx, op):
         ctx.add(v[L], [m[L]])
         ctx.add(v[L:], m[L:])
         ctx.add(v[-1], [m[-1]])
-        ctx.add(v.fixed_len(L + 1), m[:L + 1])
+        ctx.add(v.fixed_len(L + 1), m[:L + 1], may_alias=(len(m) == L + 1))
         ctx.classes.add("lookups_around_an_in_place_extension_of_the_last_chunk")
         ctx.nt = True
         return f"tail_probe v{a} += {txt!r}"
@@ -345,7 +365,7 @@ def apply_op(ctx, op):
             return f"v{a}[{i}:{j}]"
         if kind == "fixed_len":
             k = op[2] % (L + 6)
-            ctx.add(vals[a].fixed_len(k), (m + model_of_str(" " * k))[:k])
+            ctx.add(vals[a].fixed_len(k), (m + model_of_str(" " * k))[:k], may_alias=(k == L))
             ctx.classes.add("fixed_len_" + ("cut" if k < L else "same" if k == L else "pad"))
             return f"v{a}.fixed_len({k})"
         if kind == "format":
@@ -393,7 +413,7 @@ def evaluate(case):
     ctx = Ctx(C)
     nops = 0
     for op in case["ops"]:
-        if len(ctx.vals) >= 14 and op[0] in ("str", "chunk", "new", "add", "join", "index", "slice", "fixed_len", "tail_probe"):
+        if len(ctx.vals) >= 14 and op[0] in ("str", "chunk", "new", "add", "join", "index", "slice", "fixed_len", "tail_probe", "bigtext"):
             # pool full: recycle - drop the oldest value
             ctx.vals.pop(0)
             ctx.models.pop(0)
@@ -455,6 +475,7 @@ def st_ops():
         st.tuples(st.just("slice"), idx, opt, opt),
         st.tuples(st.just("fixed_len"), idx, st.integers(0, 40)),
         st.tuples(st.just("tail_probe"), idx, st.integers(0, 5), st.text("ab 0", max_size=3)),
+        st.tuples(st.just("tail_probe"), st.just(-1), st.integers(0, 5), st.text("ab 0", max_size=3)),
         st.tuples(st.just("format"), idx,
                   st.tuples(fill, st.sampled_from(["", "<", ">", "^"]), st.none() | st.integers(1, 40),
                             st.sampled_from(["", "", "s"]))),
@@ -462,8 +483,10 @@ def st_ops():
     start = st.tuples(st.just("chunk"), st.integers(1, len(FMTS) - 1), st.text("abc", min_size=1, max_size=3))
     def tolist(x):
         return [tolist(i) for i in x] if isinstance(x, (tuple, list)) else x
-    return st.builds(lambda a, b, c, rest: {"ops": tolist([a, b, ["add", 0, 1], c] + rest)},
-                     start, start, op, st.lists(op, min_size=1, max_size=22))
+    big = st.tuples(st.just("bigtext"), st.integers(0, 65), st.integers(0, 9), st.integers(0, 9))
+    return st.builds(lambda a, b, c, rest, bg, pos: {"ops": tolist(
+        [a, b, ["add", 0, 1], c] + (rest[:pos % (len(rest) + 1)] + [bg] + rest[pos % (len(rest) + 1):] if bg is not None else rest))},
+                     start, start, op, st.lists(op, min_size=1, max_size=22), st.none() | st.none() | st.none() | big, st.integers(0, 22))
 
 
 def regression_cases():
